@@ -91,7 +91,9 @@ func c07All() c07Pred {
 
 func c07And(p, q c07Pred) c07Pred {
 	return c07Pred{
-		leaf: func(a []string, b int, c meta.Leafable, d val.Value) bool { return p.leaf(a, b, c, d) && q.leaf(a, b, c, d) },
+		leaf: func(a []string, b int, c meta.Leafable, d val.Value) bool {
+			return p.leaf(a, b, c, d) && q.leaf(a, b, c, d)
+		},
 		container: func(a []string, b int, c meta.Definition) bool {
 			return p.container(a, b, c) && q.container(a, b, c)
 		},
@@ -342,6 +344,7 @@ func H_C07_range(s any) {
 }
 
 // a window on a list nested in another list leaves the enclosing list alone
+//
 //vp:setup S_c07
 func H_C07_range_nested(s any) {
 	m := s.(*meta.Module)
@@ -362,6 +365,7 @@ func H_C07_range_nested(s any) {
 }
 
 // two selections derived from one constrained base do not disturb each other
+//
 //vp:setup S_c07
 func H_C07_derived_selections(s any) {
 	m := s.(*meta.Module)
@@ -391,6 +395,7 @@ func H_C07_derived_selections(s any) {
 }
 
 // combinations are intersections
+//
 //vp:setup S_c07
 func H_C07_combine(s any) {
 	m := s.(*meta.Module)
@@ -414,6 +419,7 @@ func H_C07_combine(s any) {
 }
 
 // an invalid parameter value is an error, not an unfiltered or partial answer
+//
 //vp:setup S_c07
 func H_C07_invalid(s any) {
 	m := s.(*meta.Module)
@@ -429,6 +435,7 @@ func H_C07_invalid(s any) {
 }
 
 // at most N containers or else an error
+//
 //vp:setup S_c07
 func H_C07_max_node_count(s any) {
 	m := s.(*meta.Module)
@@ -450,6 +457,7 @@ func H_C07_max_node_count(s any) {
 }
 
 // symbolic depth through the constraint object itself
+//
 //vp:setup S_c07
 func H_C07_depth_symbolic(s any) {
 	m := s.(*meta.Module)
